@@ -15,13 +15,13 @@ EXTENDS Builder, Json, IOUtils, TLC
 
 Traces == JsonDeserialize(IOEnv.TRACE_FILE)
 
-VARIABLES tid, l, mach, prev, sb, cnt
-vars == <<tid, l, mach, prev, sb, cnt>>
+VARIABLES tid, l, mach, prev, sb, cnt, esw
+vars == <<tid, l, mach, prev, sb, cnt, esw>>
 
 Clauses == {"C01_Pos", "C01_Mode", "C02_Safe", "C02_Raises", "C02_OnlyDoc",
             "C03_Words", "C03_Reject", "C03_NaN", "C05_NoEmit", "C05_NoEffect",
             "C06_Off", "C07_Tool", "C07_Coolant", "C07_Modal", "C07_Temps", "C07_Params",
-            "C08_Lex", "C20_Count", "C20_Geometry", "C20_Params"}
+            "C08_Lex", "C20_Count", "C20_Geometry", "C20_Params", "C20_Extrusion", "C20_ExtrusionF14"}
 
 Holds(c, e, p, m, m2, M, s) ==
   CASE c = "C01_Pos"      -> C01_Pos(e, p, m, m2, M)
@@ -44,6 +44,8 @@ Holds(c, e, p, m, m2, M, s) ==
     [] c = "C20_Count"    -> C20_Count(e, p, m, m2, M)
     [] c = "C20_Geometry" -> C20_Geometry(e, p, m, m2, M)
     [] c = "C20_Params"   -> C20_Params(e, p, m, m2, M)
+    [] c = "C20_Extrusion" -> C20_Extrusion(e, p, m, m2, M, esw)
+    [] c = "C20_ExtrusionF14" -> C20_ExtrusionF14(e, p, m, m2, M, esw)
 
 \* non-vacuity: the situations in which the clause says something
 Ante(c, e, p, m, m2, M, s) ==
@@ -64,6 +66,8 @@ Ante(c, e, p, m, m2, M, s) ==
     [] c = "C20_Count"    -> C20_Ante(e, p, m, m2, M)
     [] c = "C20_Geometry" -> C20_Ante(e, p, m, m2, M)
     [] c = "C20_Params"   -> C20_Ante(e, p, m, m2, M)
+    [] c = "C20_Extrusion" -> e.eh /\ e.out = "ok" /\ ExtrusionWalk(e, m, esw).n > 0
+    [] c = "C20_ExtrusionF14" -> e.eh /\ e.out = "ok" /\ ExtrusionWalk(e, m, esw).n > 0
     [] OTHER              -> TRUE
 
 Init ==
@@ -71,7 +75,7 @@ Init ==
   /\ l = 1
   /\ mach = InitMachine
   /\ prev = Traces[tid].init
-  /\ sb = "none"
+  /\ sb = "none" /\ esw = FALSE
   /\ cnt = [c \in Clauses |-> 0]
 
 Step ==
@@ -85,6 +89,7 @@ Step ==
         /\ mach' = m2
         /\ prev' = e.rep
         /\ sb' = s2
+        /\ esw' = ExtrusionWalk(e, mach, esw).esw
         /\ cnt' = [c \in Clauses |-> cnt[c] + IF Ante(c, e, prev, mach, m2, T.meta, s2) THEN 1 ELSE 0]
   /\ l' = l + 1
   /\ UNCHANGED tid
@@ -93,7 +98,7 @@ Done ==
   /\ l = Len(Traces[tid].ev) + 1
   /\ PrintT(<<"D", tid, l - 1, cnt>>)
   /\ l' = l + 1
-  /\ UNCHANGED <<tid, mach, prev, sb, cnt>>
+  /\ UNCHANGED <<tid, mach, prev, sb, cnt, esw>>
 
 Next == Step \/ Done
 Spec == Init /\ [][Next]_vars
